@@ -906,9 +906,16 @@ def oracle_C18(rs, n, ctx):
         cells, d, o = rand_setup(rs, nd, 2, 12 if nd == 2 else 6)
         while max(d) / min(d) > 4:
             d = gens.rand_spacing(rs, nd)
-        homog_eq = rs.rand() < 0.3
+        u_ = rs.rand()
+        homog_eq = u_ < 0.3
         if homog_eq:
             d = tuple([d[0]] * nd)
+            v = np.full(cells, float(rs.choice([1.0, 2.0, 3.5])))
+            kind = "homog"
+        elif u_ < 0.5:
+            # homogeneous with unequal spacings of aspect <= 2: the exact solution is known, so the tolerance is sharp
+            h_ = float(rs.choice(gens.SPACINGS))
+            d = tuple(h_ * float(rs.choice([1.0, 1.25, 1.5, 2.0])) for _ in range(nd))
             v = np.full(cells, float(rs.choice([1.0, 2.0, 3.5])))
             kind = "homog"
         else:
